@@ -3,7 +3,7 @@ from checks import _engine
 
 MANIFEST = dict(
     technique="Coq proof over the executable engine model (induction over action lists / invariant) + differential correspondence check model vs real LockDB",
-    text="Theorems in coq/Properties/C01*.v are machine-checked for all states/actions/histories of the lock-engine model: every new holder is admitted only under the doLock rule on the recorded counters (locked <= Count of request and of oldest holder, explicit 0xffff branch), and the locked counter equals the sum of outstanding depths in every reachable state of the core subset. The model is tied to server/db.go + server/lock.go on every run by executing the same seeded histories on the real LockDB (in-package harness, manual clock) and on the extracted model and diffing replies, AOF records and full snapshots (holders, waiters, depths, reference counts, counters). A monitor (executable statement of the bound on implementation replies/snapshots) searches a concrete failing history when a proof or the correspondence breaks.",
+    text="Theorems in coq/Properties/C01*.v are machine-checked for all states/actions/histories of the lock-engine model: every new holder is admitted only under the doLock rule on the recorded counters (locked <= Count of request and of oldest holder, explicit 0xffff branch), the locked counter equals the sum of outstanding depths in every reachable state of the core subset, and (C01_bound.v) when every request on a key uses Count c < 0xffff the key has at most c + 1 holders (exactly one for Count 0), locked <= (c+1)(p+1) with Rcount <= p; 'locked <= c+1' is refuted under re-entrancy (depth counts levels). The model is tied to server/db.go + server/lock.go on every run by executing the same seeded histories on the real LockDB (in-package harness, manual clock) and on the extracted model and diffing replies, AOF records and full snapshots (holders, waiters, depths, reference counts, counters). A monitor (executable statement of the bound on implementation replies/snapshots) searches a concrete failing history when a proof or the correspondence breaks.",
     note="Trusted: Coq kernel; hand-written model validated by the correspondence check; extraction (ExtrOcamlBasic only); harness + hooks; sequential schedules at request/sweep granularity, one shard (see evidence trusted_base). Lock-free key table (CAS protocol) and PriorityMutex are modelled as atomic, not verified.",
 )
 PROFILES = [("core", 0.2), ("count", 0.25), ("waiters", 0.15), ("reentrant", 0.1), ("expiry", 0.08), ("sched", 0.12), ("sched2", 0.1), ("many", 0.02)]
